@@ -44,7 +44,7 @@ let of_perr = function
 let of_res f = function Ok a -> L [A "ok"; f a] | Err (E_Need q) -> of_query q | Err e -> L [A "err"; of_perr e]
 let of_part p =
   L [A "part"; of_lines p.exec_lines; of_lines p.want_lines; of_nat p.line_offset; of_lines p.orig_lines;
-     of_list of_directive p.p_directives; of_mode p.compile_mode]
+     (if p.p_dirs_raise then A "raise" else of_list of_directive p.p_directives); of_mode p.compile_mode]
 let of_item = function IText t -> L [A "text"; of_str t] | IPart p -> of_part p
 let of_fp = function FP_label -> A "_label_docsrc_lines" | FP_group -> A "_group_labeled_lines" | FP_package -> A "_package_groups"
 let of_chunk = function
@@ -70,7 +70,8 @@ let to_mode = function A "exec" -> M_exec | A "eval" -> M_eval | A "single" -> M
 let to_part = function
   | L [A "part"; e; w; o; orig; ds; m] ->
     { exec_lines = to_lines e; want_lines = to_lines w; line_offset = to_nat o; orig_lines = to_lines orig;
-      p_directives = to_list to_directive ds; compile_mode = to_mode m }
+      p_directives = (match ds with A "raise" -> [] | _ -> to_list to_directive ds); compile_mode = to_mode m;
+      p_dirs_raise = (match ds with A "raise" -> true | _ -> false) }
   | _ -> raise (Bad "part")
 let to_ev = function
   | A "notevaled" -> NotEvaled | A "reprraises" -> EvalReprRaises
@@ -231,7 +232,7 @@ let dispatch (fn : string) (args : sx list) : sx =
   | "check_exception", [fl; g; w] -> of_opt of_bool (check_exception (to_flags fl) (to_str g) (to_str w))
   | "has_any_code", [ls] ->
     of_bool (has_any_code { exec_lines = to_lines ls; want_lines = []; line_offset = O; orig_lines = [];
-                            p_directives = []; compile_mode = M_exec })
+                            p_directives = []; compile_mode = M_exec; p_dirs_raise = false })
   | "part_check", [fl; w; um; g; ev] ->
     A (match part_check (to_flags fl) (to_str w) (to_lines um) (to_str g) (to_ev ev) with
         | GW_ok -> "ok" | GW_gotwant -> "gotwant" | GW_extract_repr -> "extractrepr" | GW_repr_escapes -> "represcapes")
@@ -285,6 +286,19 @@ let dispatch (fn : string) (args : sx list) : sx =
     let ps = to_list to_part parts in
     let ov = function None -> A "none" | Some V_passed -> A "passed" | Some V_failed -> A "failed" | Some V_skipped -> A "skipped" in
     L [ov (native_verdict (run req cn (outcome_fun ocl) ps)); ov (pytest_verdict (run req cp (outcome_fun ocl) ps))]
+  (* Collect *)
+  | "style_examples", [st; split; parsed] ->
+    let to_px = function A "parse" -> PX_parse | A "malformed" -> PX_malformed | A "other" -> PX_other | _ -> raise (Bad "pexn") in
+    let of_px = function PX_parse -> A "parse" | PX_malformed -> A "malformed" | PX_other -> A "other" in
+    let to_gb = function L [e; o; p] -> { gb_is_example = to_bool e; gb_offset = to_nat o; gb_parse = to_opt to_px p } | _ -> raise (Bad "gblock") in
+    let to_fi = function L [A "text"; n; sk] -> FText (to_nat n, to_bool sk) | L [A "part"; n] -> FPart (to_nat n) | _ -> raise (Bad "fitem") in
+    let st = (match st with A "google" -> S_google | A "freeform" -> S_freeform | A "auto" -> S_auto | _ -> raise (Bad "style")) in
+    let split = to_opt (to_list to_gb) split in
+    let parsed = (match parsed with L [A "raise"; e] -> Inl (to_px e) | L [A "items"; l] -> Inr (to_list to_fi l) | _ -> raise (Bad "parsed")) in
+    let g = style_examples st split parsed in
+    let c = contain g in
+    L [of_list (fun e -> L [of_nat e.e_num; of_nat e.e_lineno_off]) c.c_examples; of_bool c.c_warned; of_bool c.c_propagates;
+       of_opt of_px g.g_raise]
   | _ -> raise (Bad ("unknown function " ^ fn))
 
 
